@@ -298,7 +298,7 @@ def swap (cx : Cx) (ps : List Proof) (outs : List BMsg) (outputsVerdict : Option
 
 inductive InvReq where
   | inv (h : Nat)
-  /-- an invoice `f` made by somebody else that carries the PAYMENT HASH of invoice `h` (any amount; F16) -/
+  /-- an invoice `f` made by somebody else that carries the PAYMENT HASH of invoice `h` (any amount; F17) -/
   | forged (f h : Nat)
   | bad
   deriving DecidableEq, Repr, Inhabited
@@ -322,7 +322,7 @@ def reserveFor (internal : Bool) (fee0 : UInt64) : UInt64 := if internal then 0 
 def eForeignInvoice : E := (20009, "invoice does not match the mint quote with the same payment hash")
 
 /-- `Mint.RequestMeltQuote` for the invoice `i` whose payment hash is `h` (the mint's own invoices and ordinary external
-    ones: `i = h`).  After F16 a mint quote with that payment hash makes the request an internal one only if the request IS
+    ones: `i = h`).  After F17 a mint quote with that payment hash makes the request an internal one only if the request IS
     that quote's invoice; any other invoice with the same hash is refused. -/
 def meltQuoteFor (cx : Cx) (qid : Nat) (i h : Nat) (msatOf : Nat → UInt64) (mpp : Option UInt64) : PM MeltQ := do
   failIf (msatOf i == 0) (20009, "invoice-no-amount")
